@@ -261,7 +261,14 @@ func c01Storm(r *Run, idx int) {
 	var seq atomic.Int64
 	b := theine.NewBuilder[int, int64]([]int64{1, 2, 4}[rng.Intn(3)]).UseEntryPool(idx%3 == 2 && r.Args["racepass"] == "")
 	c, err := b.Loading(func(ctx context.Context, k int) (theine.Loaded[int64], error) {
-		return theine.Loaded[int64]{Value: int64(k)<<40 | seq.Add(1), Cost: 1}, nil
+		n := seq.Add(1)
+		if n%4 == 0 {
+			// every fourth load fails, with an error whose Is method dawdles: whoever inspects the shared result
+			// of a failed load with errors.Is does so slowly, and a result record recycled under it would by then
+			// carry a neighbour key's value
+			return theine.Loaded[int64]{}, stormErr{}
+		}
+		return theine.Loaded[int64]{Value: int64(k)<<40 | n, Cost: 1}, nil
 	}).Build()
 	if err != nil {
 		r.Broken("build: %v", err)
@@ -309,7 +316,29 @@ func c01Storm(r *Run, idx int) {
 		}
 	}
 	wg.Wait()
-	per := rounds
+	// free-running: no barrier between the Gets, so a load of a neighbour key can start while the waiters of the
+	// previous load are still picking up its result
+	free := r.Pick(30000, 300000)
+	for g := 0; g < G; g++ {
+		wr := rand.New(rand.NewSource(rng.Int63()))
+		wg.Add(1)
+		go func() {
+			defer wg.Done()
+			for i := 0; i < free; i++ {
+				k := keys[wr.Intn(len(keys))]
+				if wr.Intn(12) == 0 {
+					c.Delete(k)
+					continue
+				}
+				if v, err := c.Get(context.Background(), k); err == nil && int(v>>40) != k {
+					wrong.Add(1)
+					first.CompareAndSwap(nil, fmt.Sprintf("free-running: Get(%d) returned %#x, a value the loader made for key %d", k, v, v>>40))
+				}
+			}
+		}()
+	}
+	wg.Wait()
+	per := rounds + free
 	if w := wrong.Load(); w > 0 {
 		r.Violate("value-of-another-key/concurrent-loads-in-one-shard", fmt.Sprintf("storm %d (%d goroutines, %d keys of one shard, loading cache): %d Gets returned a value that was loaded for another key (first: %v)", idx, G, len(keys), w, first.Load()),
 			map[string]any{"storm": idx, "goroutines": G, "gets_per_goroutine": per})
@@ -318,6 +347,18 @@ func c01Storm(r *Run, idx int) {
 	r.Count("storm_gets", int64(G*per))
 	r.Count("storm_loads", seq.Load())
 	r.Distinct(fmt.Sprintf("storm/G%d", G))
+}
+
+// stormErr is a loader error whose comparison takes a moment (error types with an Is method are ordinary user code).
+type stormErr struct{}
+
+func (stormErr) Error() string { return "storm: load failed" }
+func (stormErr) Is(error) bool {
+	for i := 0; i < 3; i++ {
+		runtime.Gosched()
+	}
+	time.Sleep(20 * time.Microsecond)
+	return false
 }
 
 func c01LeaderWindow(r *Run, variant int) {
